@@ -35,7 +35,7 @@ func c07Positions(tier string) int {
 	if tier == "thorough" {
 		return 160
 	}
-	return 30
+	return 40
 }
 
 func init() {
